@@ -23,7 +23,8 @@ namespace SkNet.Svg
 
 inductive PyErr
   | valueError | indexError | typeError | keyError | zeroDivisionError | unicodeEncodeError
-  /-- the input is outside what the model describes (negative weights, duplicate entries) -/
+  /-- the input is outside what the model describes: duplicate stored entries `(i, j)` in the (bi)adjacency matrix
+      (scipy sums them in some operations and not in others) -/
   | outOfModel
 deriving DecidableEq, Repr
 
@@ -85,6 +86,11 @@ def svgPieSector (t : Nat → PyStr) (color sw : PyStr) : List Piece :=
 /-- `colors[index % n_colors]` -/
 def modIndex (colors : List PyStr) (index : Nat) : Except PyErr PyStr :=
   if colors.length = 0 then .error .zeroDivisionError
+  else .ok (colors.getD (index % colors.length) [])
+
+/-- `colors[l % len(colors)]` with numpy integers (`np.int64 % 0` is 0 with a warning, then the index is out of bounds) -/
+def modIndexNp (colors : List PyStr) (index : Nat) : Except PyErr PyStr :=
+  if colors.length = 0 then .error .indexError
   else .ok (colors.getD (index % colors.length) [])
 
 /-- `svg_pie_chart_node(pos, size, probs, colors, stroke_width)`; `row` = the dense row, `k` its length -/
@@ -189,7 +195,9 @@ def scoreColor (ν : Nums) (i side : Nat) : PyStr := py!"rgb(" ++ (ν .score i s
 
 /-- the `labels` argument as an array of length `n` -/
 def labelArray (n : Nat) : Labels → Except PyErr (List Int)
-  | .dict kv => setMany (List.replicate n (-1 : Int)) kv
+  | .dict kv =>
+    if kv.isEmpty then .error .indexError     -- `np.array([])` is a float array: not an index
+    else setMany (List.replicate n (-1 : Int)) kv
   | .arr l isList =>
     if isList ∧ l.length ≠ n then .error .valueError
     else if l.length ≠ n then .error .indexError
@@ -213,13 +221,17 @@ def getNodeColors (ν : Nums) (side n : Nat) (labels : Option Labels) (scores : 
       match getLabelColors lc with
       | .error e => .error e
       | .ok colors =>
-        if colors.length = 0 then .error .indexError
+        -- `label_colors[labels[index] % len(label_colors)]` is evaluated on the labels `>= 0` only
+        if colors.length = 0 ∧ labs.any (fun l => l ≥ 0) then .error .indexError
         else .ok (colorsFromLabels n labs colors nodeColor)
   | none =>
     match scores with
-    | some (.dict keys) => setMany (List.replicate n nodeColor) (keys.map fun k => (k, scoreColor ν k side))
+    | some (.dict keys) =>
+      if keys.isEmpty then .error .valueError      -- `np.min` of an empty array
+      else setMany (List.replicate n nodeColor) (keys.map fun k => (k, scoreColor ν k side))
     | some (.arr len isList) =>
       if isList ∧ len ≠ n then .error .valueError
+      else if len = 0 then .error .valueError        -- `np.min` of an empty array
       else .ok (tab len fun i => scoreColor ν i side)
     | none =>
       if hasMembership then
@@ -346,6 +358,11 @@ def edgeColorArray (m : Nat) (data : List Int) (colors : List PyStr) (edgeColor 
     let v := if k < data.length then data.getD k (-1) else -1
     if v ≥ 0 then colors.getD v.toNat [] else edgeColor
 
+/-- two stored entries at the same place -/
+def hasDuplicate : List Entry → Bool
+  | [] => false
+  | e :: r => r.any (fun x => x.1 == e.1 && x.2.1 == e.2.1) || hasDuplicate r
+
 /-- `get_edge_colors(adjacency, edge_labels, edge_color, label_colors)`; `es` = stored entries in storage order.
     `adjacency_labels` has the sparsity structure of `adjacency` (after the repair b9a209f6; before, it was
     `adjacency > 0`, whose entries were numbered differently from the COO arrays read by the caller as soon as a
@@ -354,7 +371,8 @@ def edgeColorArray (m : Nat) (data : List Int) (colors : List PyStr) (edgeColor 
 def getEdgeColors (sort : List Int → List Nat) (nRow nCol : Nat) (es : List Entry)
     (edgeLabels : List (Int × Int × Int)) (edgeColor : PyStr) (lc : LabelColors) : Except PyErr EdgeColors :=
   let data0 : List Int := es.map fun _ => -1
-  if edgeLabels.isEmpty then
+  if hasDuplicate es then .error .outOfModel
+  else if edgeLabels.isEmpty then
     .ok ⟨edgeColorArray es.length data0 [] edgeColor, sort data0, []⟩
   else
     match getLabelColors lc with
@@ -653,8 +671,8 @@ def getIndex (merges : List (Nat × Nat)) (reorder : Bool) : Except PyErr (List 
 structure DendroArgs where
   /-- `int(dendrogram[t, 0]), int(dendrogram[t, 1])` -/
   merges : List (Nat × Nat)
-  /-- `cut_straight(dendrogram, n_clusters, return_dendrogram=False)` (external) -/
-  cutLabels : List Nat
+  /-- `cut_straight(dendrogram, n_clusters, return_dendrogram=False)` (external); `none` = it raised -/
+  cutLabels : Option (List Nat)
   names : Option (List PyStr) := none
   rotate : Bool := false
   rotateNames : Bool := true
@@ -710,22 +728,32 @@ def dendroStep (ν : Nums) (a : DendroArgs) (n : Nat) (st : TreeState) (t : Nat)
   let (_, position) ← dpop position j
   let (l1, label) ← dpop st.label i
   let (l2, label) ← dpop label j
-  let lineColor ← if l1 = l2 then modIndex a.colors l1 else pure a.color
+  let lineColor ← if l1 = l2 then modIndexNp a.colors l1 else pure a.color
   pure ⟨st.out ++ dendroPaths ν t lineColor, dset position (n + t) (), dset label (n + t) l1⟩
 
 /-- the tree loop: `for t in range(n - 1):` -/
-def dendroTree (ν : Nums) (a : DendroArgs) (index : List Nat) : Except PyErr (List Piece) := do
+def dendroTree (ν : Nums) (a : DendroArgs) (cut : List Nat) (index : List Nat) : Except PyErr (List Piece) := do
   let n := index.length
   let st ← (List.range (n - 1)).foldlM (dendroStep ν a n)
-    ⟨[], index.map fun k => (k, ()), tab a.cutLabels.length fun i => (i, a.cutLabels.getD i 0)⟩
+    ⟨[], index.map fun k => (k, ()), tab cut.length fun i => (i, cut.getD i 0)⟩
   pure st.out
 
 /-- `svg_dendrogram_top` / `svg_dendrogram_left` (they differ in the numbers and in the text template) -/
-def svgDendrogram (ν : Nums) (a : DendroArgs) : Except PyErr (List Piece) := do
-  let index ← getIndex a.merges a.reorder
-  let text ← dendroNames ν a index
-  let paths ← dendroTree ν a index
-  pure (svgDoc ν true false (text ++ paths))
+def svgDendrogram (ν : Nums) (a : DendroArgs) : Except PyErr (List Piece) :=
+  match a.cutLabels with
+  | none => .error .valueError                  -- `cut_straight` raised
+  | some cut =>
+    match getIndex a.merges a.reorder with
+    | .error e => .error e
+    | .ok index =>
+      if a.merges.isEmpty then .error .indexError       -- `dendrogram[-1, 2]` of a dendrogram without rows
+      else
+        match dendroNames ν a index with
+        | .error e => .error e
+        | .ok text =>
+          match dendroTree ν a cut index with
+          | .error e => .error e
+          | .ok paths => .ok (svgDoc ν true false (text ++ paths))
 
 def visualizeDendrogram (ν : Nums) (a : DendroArgs) : Except PyErr Drawing := do
   let svg ← svgDendrogram ν a
